@@ -67,6 +67,20 @@ def explore(groups, priv, max_asg=1, max_mut=1, timeout=900):
     return res, graph, init
 
 
+def simulate_histories(ctx, priv, maxlen, num, seed):
+    """Random histories over all seven groups from TLC -simulate (MC_LazySim)."""
+    c = ("SPECIFICATION SSpec\nINVARIANT EmitHist\n" + cfg(ALL_GROUPS, priv, 1, 1) + "  MaxLen = %d\n" % maxlen)
+    res = tlc.run("MC_LazySim", c, workers=16, simulate="num=%d" % num, depth=maxlen + 2, seed=seed, timeout=900)
+    if res.rc != 0:
+        raise tlc.TLCError("MC_LazySim failed: " + tlc.brief(res.out))
+    hs = {}
+    for r in res.printed():
+        hs[canon(r["hist"])] = r["hist"]
+    res.distinct = len(hs)
+    ctx.tlc("MC_LazySim all groups priv=%s (-simulate, %d behaviours of length %d)" % (",".join(priv) or "-", res.sim_traces, maxlen), res)
+    return list(hs.values())
+
+
 def histories_from_graph(graph, init, rng, quick, max_loops=40):
     """One history per non-loop edge (shortest prefix + edge) and one per node (prefix + its self-loop events)."""
     path = {init: []}
